@@ -75,6 +75,8 @@ Inductive hclass :=
 | HNotFound           (* Delete of an absent / deleted key: Succeeded = false *)
 | HErr.               (* an error is returned ("revision drift back", "cas failed, new revision is ...") *)
 
+Definition hclass_is_ok (c : hclass) : bool := match c with HOk => true | _ => false end.
+
 Record hres := mkRes { h_class : hclass; h_rev : N (* response header revision; 0 with HErr *) }.
 
 (* revision allocator, tso.go: (dealRevision, committedRevision) *)
